@@ -20,6 +20,14 @@ def quote_string(text: str) -> str:
         return f"'{prepare_text_for_dbml(text)}'"
 
 
+def string_to_dbml(text: str) -> str:
+    '''Write text as a string literal that may stand in the middle of a line'''
+    if '\n' in text:
+        return f"'''{prepare_text_for_dbml(text)}'''"
+    else:
+        return f"'{prepare_text_for_dbml(text)}'"
+
+
 def note_option_to_dbml(note: 'Note') -> str:
     if '\n' in note.text:
         return f"note: '''{prepare_text_for_dbml(note.text)}'''"
